@@ -22,6 +22,7 @@ import (
 	"verif/harness/monitor"
 	"verif/harness/mqttx"
 	"verif/harness/wire"
+	"verif/harness/yield"
 )
 
 const step = 10 * time.Second
@@ -786,6 +787,9 @@ func runScenario(sc *Scenario) (fs []finding, obs map[string]int, rerr error) {
 
 // Run is the entry point.
 func Run(r *monitor.Run) {
+	// widen the hand-over points of the broker (between unregistering a connection and booking it in the
+	// statistics, ...) so that the gauge poller gets to see the intermediate states
+	yield.Enable(r.Seed, true)
 	n := r.Pick(40, 1200)
 	rng := r.Rand("scenarios")
 	scs := make([]Scenario, n)
